@@ -525,3 +525,213 @@ class unknown_sizes_refused:
             for ch in cat.layouts_1d(n, "quick"):
                 for op in ("full", "slice", "int", "rev", "rechunk2", "rechunk-1", "take", "plus", "sum"):
                     yield {"n": n, "chunks": ch, "op": op}
+
+
+# ---------------------------------------------------------------------------
+# C02: every fired rewrite preserves the denoted array
+# ---------------------------------------------------------------------------
+_RW = {}
+
+
+def rw_entries(tier):
+    import random
+    if tier not in _RW:
+        _RW[tier] = dict(cat.rewrite_targets(tier, random.Random(0)))
+    return _RW[tier]
+
+
+def _eval_unoptimized(expr):
+    """value of an expression with simplify/fuse switched off (lowering only)"""
+    import dask
+    import numpy as np
+    from dask_array._new_collection import new_collection
+    with dask.config.set({"array.optimize-graph": False}):
+        return np.asarray(new_collection(expr).compute())
+
+
+class _RewriteRecorder:
+    HOOKS = ("_simplify_down", "_simplify_up", "_lower")
+
+    def __init__(self):
+        self.records = []
+        self.patched = []
+
+    def __enter__(self):
+        import functools
+        from dask_array._expr import ArrayExpr
+        seen, stack = set(), [ArrayExpr]
+        while stack:
+            c = stack.pop()
+            if c in seen:
+                continue
+            seen.add(c)
+            stack.extend(c.__subclasses__())
+        rec = self.records
+        for cls in seen:
+            for hook in self.HOOKS:
+                if hook in cls.__dict__:
+                    orig = cls.__dict__[hook]
+
+                    def make(orig=orig, hook=hook):
+                        @functools.wraps(orig)
+                        def wrapper(self_, *a, **k):
+                            out = orig(self_, *a, **k)
+                            if out is not None:
+                                before = a[0] if hook == "_simplify_up" else self_
+                                if getattr(out, "_name", None) != before._name:
+                                    rec.append((f"{type(self_).__name__}.{hook}", before, out))
+                            return out
+                        return wrapper
+                    setattr(cls, hook, make())
+                    self.patched.append((cls, hook, orig))
+        return self
+
+    def __exit__(self, *exc):
+        for cls, hook, orig in reversed(self.patched):
+            setattr(cls, hook, orig)
+
+
+@contract("dask_array/_materialize.py::_lower", spec="rewrites", props=["C02", "C14", "C24"])
+class rewrites_preserve_values:
+    """each rewrite that fires during simplify / lower replaces a subexpression by one denoting the same array
+    (same values, shape, dtype); the raw, simplified, lowered and fused forms compute identical values."""
+    bounded_only = True
+    params = {"entry": "const", "tier": "const", "big": "const"}
+    scope = ("compositions chosen to fire slice/rechunk/shuffle pushdowns, nested-op fusion, sliding-window substitution, chunk "
+             "unification and rechunk-into-IO over 1-D/2-D sources with several layouts (NumPy and recording sources with a storage "
+             "grid); each also with the NumPy eager-slice byte limit set to 0, so that the deferred-region path taken by sources "
+             "over 64 MiB is exercised at small scale")
+
+    def real():
+        return lambda x: x
+
+    def call(fn, entry, tier, big):
+        import numpy as np
+        import dask
+        import dask_array.io._from_array as fa
+        saved = fa._NUMPY_SLICE_PUSHDOWN_NBYTES_LIMIT
+        if big:
+            fa._NUMPY_SLICE_PUSHDOWN_NBYTES_LIMIT = 0
+        try:
+            return rewrites_preserve_values._run(entry, tier)
+        finally:
+            fa._NUMPY_SLICE_PUSHDOWN_NBYTES_LIMIT = saved
+
+    def _run(entry, tier):
+        import numpy as np
+        import dask
+        x, expected, info = rw_entries(tier)[entry]()
+        with _RewriteRecorder() as rec:
+            simplified = x.expr.simplify()
+            lowered = simplified.lower_completely()
+            fused = lowered.fuse()
+        phases = {}
+        for name, e in (("raw", x.expr), ("simplified", simplified), ("lowered", lowered), ("fused", fused)):
+            try:
+                phases[name] = _eval_unoptimized(e)
+            except Exception as ex:  # a phase that cannot be evaluated is reported, not hidden
+                phases[name] = ex
+        pairs = []
+        for rule, before, after in rec.records:
+            try:
+                b = _eval_unoptimized(before)
+                a = _eval_unoptimized(after)
+                pairs.append((rule, b, a, None))
+            except Exception as ex:
+                pairs.append((rule, None, None, f"{type(ex).__name__}: {ex}"))
+        return expected, phases, pairs, (x.shape, x.dtype)
+
+    def requires(entry, tier, big):
+        return True
+
+    def ensures(result, entry, tier, big):
+        import numpy as np
+        expected, phases, pairs, meta = result
+        r = {}
+        for name, v in phases.items():
+            r[f"phase-{name}-equals-numpy"] = (not isinstance(v, Exception)) and _same(v, expected)
+        bad = [rule for rule, b, a, err in pairs if err is None and not (_same(a, b) and np.asarray(a).dtype == np.asarray(b).dtype)]
+        errs = [f"{rule}: {err}" for rule, b, a, err in pairs if err is not None]
+        r["every-fired-rewrite-preserves-values"] = bad == []
+        r["rewritten-expressions-are-computable"] = errs == []
+        return r
+
+    def normalize_result(result):
+        return result
+
+    def domain(tier, rng):
+        for name in rw_entries(tier):
+            yield {"entry": name, "tier": tier, "big": False}
+            if "/np/" in name:
+                yield {"entry": name, "tier": tier, "big": True}
+
+
+# ---------------------------------------------------------------------------
+# C12: integer list / array indexing (take -> shuffle), vindex, boolean masks
+# ---------------------------------------------------------------------------
+@contract("dask_array/slicing/_basic.py::take", spec="lists", props=["C12"])
+class take_lists:
+    """x[list] / x[ndarray] / x[:, list] / x.vindex[list] return what NumPy returns, including full-length lists
+    that permute or repeat elements inside a chunk (the identity fast path must only fire for the identity)."""
+    bounded_only = True
+    params = {"n": "const", "chunks": "const", "index": "const", "form": "const"}
+    scope = ("1-D arrays of length 4 (all 256 full-length lists) and 6/8 (structured full-length lists: per-chunk groups with "
+             "fixed or moved end points, repeats, reversals; all short lists of length <= 2), several chunkings; forms: "
+             "list, ndarray, 2-D column take, vindex")
+
+    def real():
+        return lambda x, idx, form: None
+
+    def call(fn, n, chunks, index, form):
+        import numpy as np
+        import dask_array as da
+        d = np.arange(n) * 10
+        if form == "col":
+            d2 = np.stack([d, d + 1, d + 2])
+            x = da.from_array(d2, chunks=((2, 1), chunks))
+            return np.asarray(x[:, list(index)].compute()), d2[:, list(index)]
+        x = da.from_array(d, chunks=(chunks,))
+        if form == "list":
+            got = x[list(index)]
+        elif form == "ndarray":
+            got = x[np.array(index, dtype=int)]
+        elif form == "vindex":
+            got = x.vindex[list(index)]
+        else:
+            raise ValueError(form)
+        return np.asarray(got.compute()), d[list(index)]
+
+    def requires(n, chunks, index, form):
+        return len(index) > 0
+
+    def ensures(result, n, chunks, index, form):
+        got, want = result
+        return {"values-equal-numpy": _same(got, want)}
+
+    def domain(tier, rng):
+        import itertools
+        for ch in [(4,), (2, 2), (3, 1), (1, 3)]:
+            for idx in itertools.product(range(4), repeat=4):
+                yield {"n": 4, "chunks": ch, "index": idx, "form": "list"}
+        short = [(-1,), (0, 0), (5, 0), (2, 3), (3, 2), (-1, -6)]
+        for n, layouts in ((6, [(3, 3), (4, 2), (6,)]), (8, [(4, 4), (3, 5), (8,)])):
+            for ch in layouts:
+                groups = []
+                start = 0
+                for c in ch:
+                    opts = []
+                    rngc = list(range(start, start + c))
+                    for mid in itertools.product(rngc, repeat=max(0, c - 2)):
+                        opts.append((rngc[0],) + mid + ((rngc[-1],) if c > 1 else ()))
+                    opts.append(tuple(rngc[::-1]))
+                    if tier == "quick" and len(opts) > 12:
+                        opts = opts[:: max(1, len(opts) // 12)] + [tuple(rngc[::-1])]
+                    groups.append(opts)
+                    start += c
+                for combo in itertools.product(*groups):
+                    idx = tuple(i for g in combo for i in g)
+                    for form in ("list", "ndarray") if tier == "quick" else ("list", "ndarray", "vindex", "col"):
+                        yield {"n": n, "chunks": ch, "index": idx, "form": form}
+                for idx in short:
+                    for form in ("list", "vindex", "col"):
+                        yield {"n": n, "chunks": ch, "index": idx, "form": form}
